@@ -177,6 +177,54 @@ func unmarshalChecked(rel string) string {
 	return ""
 }
 
+// topLevelKeysChecked: what validation.SchemaValidate returns on the valid path
+// (`if result.Valid() { return X }`): `true` when X is a call of checkTopLevelKeys on the schema
+// content, `false` when X is nil.
+func topLevelKeysChecked(rel string) string {
+	_, f := parseFile(rel)
+	fd := findFunc(f, "SchemaValidate")
+	if fd == nil || fd.Body == nil {
+		die("%s: SchemaValidate not found", rel)
+	}
+	res := ""
+	ast.Inspect(fd.Body, func(n ast.Node) bool {
+		ifs, ok := n.(*ast.IfStmt)
+		if !ok {
+			return true
+		}
+		call, ok := ifs.Cond.(*ast.CallExpr)
+		if !ok {
+			return true
+		}
+		sel, ok := call.Fun.(*ast.SelectorExpr)
+		if !ok || sel.Sel.Name != "Valid" || len(ifs.Body.List) == 0 {
+			return true
+		}
+		ret, ok := ifs.Body.List[len(ifs.Body.List)-1].(*ast.ReturnStmt)
+		if !ok || len(ret.Results) != 1 {
+			die("%s: SchemaValidate: the valid path does not end in a single-value return", rel)
+		}
+		switch x := ret.Results[0].(type) {
+		case *ast.Ident:
+			if x.Name == "nil" {
+				res = "false"
+			}
+		case *ast.CallExpr:
+			if isIdent(x.Fun, "checkTopLevelKeys") && len(x.Args) == 2 && len(fd.Type.Params.List) >= 2 {
+				res = "true"
+			}
+		}
+		if res == "" {
+			die("%s: SchemaValidate: the valid path returns something not recognised", rel)
+		}
+		return false
+	})
+	if res == "" {
+		die("%s: SchemaValidate: no `if result.Valid()` found", rel)
+	}
+	return res
+}
+
 // schemaConst loads the JSON text of a compiled-in JSON-schema constant.
 func schemaConst(rel, name string) map[string]interface{} {
 	_, f := parseFile(rel)
@@ -245,6 +293,7 @@ func genSafety() string {
 		{"fixed", ff + "fixedlength/format.go"}, {"fixed2", ff + "flatfile/fixedlength/format.go"}} {
 		fmt.Fprintf(&sb, "Definition %s_unmarshal_checked : bool := %s.\n", x.name, unmarshalChecked(x.rel))
 	}
+	fmt.Fprintf(&sb, "Definition schema_validate_checks_top_level_keys : bool := %s.\n", topLevelKeysChecked("validation/jsonvalidate.go"))
 	csv := schemaConst(vd+"csvFileDeclaration.go", "JSONSchemaCSVFileDeclaration")
 	csv2 := schemaConst(vd+"csv2FileDeclaration.go", "JSONSchemaCSV2FileDeclaration")
 	fl := schemaConst(vd+"fixedlengthFileDeclaration.go", "JSONSchemaFixedLengthFileDeclaration")
